@@ -11,4 +11,10 @@ func init() {
 		Explain: "model-based stateful PBT; dimension space enumerated completely, contents and sequences sampled",
 		Assumptions: []string{"unchecked accessors (BitArray Get/Set/Flip, BitMatrix Set/Unset/Flip) only receive in-range indices", "SetBulk values never set bits at or beyond the array size", "rows given to SetRow have exactly the matrix width"},
 	}
+	configs["C20"] = cfg{
+		Level: "exploration", QuickShards: 8, ThorShards: 16, QuickTO: 5 * time.Minute, ThorTO: 30 * time.Minute,
+		Rule: "RecordPattern / RecordPatternInReverse: rapid rows of length 0..300 (alternating, short runs, long runs), every kind of start offset and 1..10 counters, compared with a run-length model (non-trivial = the row holds more runs than counters, so the counters are filled); plus all (start, n) on fixed small rows. PatternMatchVariance: every row of every pattern table the library matches with it (hook-exported UPC/EAN, Code 128, ITF tables and RSS-14 finder patterns) x all counter vectors with entries 0..6 (exhaustive in the thorough tier, strided above 20000 vectors per row in quick) and rapid vectors with entries 0..40 and generated patterns, compared with the contract evaluated in exact rationals (tolerance 1e-9), +Inf classes included, scale invariance k=2..8 (1e-12). Non-trivial = total width >= pattern width and not an exact multiple (finite inexact score or +Inf by individual variance); distinct by hash of (counters, pattern, limit).",
+		Explain: "table rows enumerated completely; counter vectors with entries <= 6 enumerated completely in the thorough tier",
+		Assumptions: []string{"start offsets are within 0..len (forward) and 0..len-1 (reverse), as every caller passes", "comparisons within 1e-9 relative of the individual-variance boundary are skipped (floating point may legitimately fall either way)", "pattern tables are those exported by the verif-tagged hook oned.VerifPatternTables / rss.VerifFinderPatterns"},
+	}
 }
